@@ -44,7 +44,7 @@ type Op struct {
 	// (utf8 "x" for the declared int64): the cast fails on the first turn.
 	BadCast bool
 	// BadCastShape: 0 a string column "x"; 1 the declared column plus an extra
-	// trailing one; 2 a column with another name
+	// trailing one; 2 a column with another name; 3 no columns at all (empty schema)
 	BadCastShape int
 	WriteAhead int  // extra inputs written before reading the previous output
 	// AfterCancel: inputs the client still writes after its cancel batch before
@@ -357,7 +357,12 @@ func (s *Session) write(b []byte) error {
 func inputBatch(op *Op, k int, cancel bool) arrow.RecordBatch {
 	var b arrow.RecordBatch
 	if op.StreamKind == "exchange" {
-		if cancel && op.BadCast && op.BadCastShape == 1 {
+		if op.BadCast && op.BadCastShape == 3 {
+			// the client opened its input stream with an empty schema (it never
+			// meant to send data): every batch of that stream, the cancel batch
+			// included, has no columns
+			b = hx.EmptyBatch()
+		} else if cancel && op.BadCast && op.BadCastShape == 1 {
 			b = hx.Int64Cols([]string{"x", "z"}, nil)
 		} else if cancel && op.BadCast && op.BadCastShape == 2 {
 			b = hx.Int64Cols([]string{"y"}, nil)
